@@ -194,8 +194,27 @@ def count_violations(fnode, queue="_msg_queue", methods=None):
                     return True
         return False
 
+    # a strategy: `sink = self.select(...)` where every return of `select` is a bound method of the node that itself dispatches or
+    # enqueues exactly once -- calling `sink(...)` is then one dispatch-or-enqueue
+    strategy_vars = set()
+    for st in ast.walk(fnode):
+        if isinstance(st, ast.Assign) and len(st.targets) == 1 and isinstance(st.targets[0], ast.Name) and isinstance(st.value, ast.Call):
+            p = dotted_parts(st.value.func)
+            if p and len(p) == 2 and p[0] == "self" and p[1] in methods:
+                rets = [r for r in ast.walk(methods[p[1]]) if isinstance(r, ast.Return)]
+                ok_ = bool(rets)
+                for r in rets:
+                    q = dotted_parts(r.value) if r.value is not None else None
+                    if not (q and len(q) == 2 and q[0] == "self" and (q[1] == "handle_command" or helper_counts(q[1]) == {1})):
+                        ok_ = False
+                if ok_:
+                    strategy_vars.add(st.targets[0].id)
+
+    def strategy_call(n):
+        return any(isinstance(c.func, ast.Name) and c.func.id in strategy_vars for c in calls_in(n))
+
     def is_disp(n):
-        return direct(n) or helper_one(n)
+        return direct(n) or helper_one(n) or strategy_call(n)
 
     def is_recv(n):
         return any(dotted_parts(c.func) in (["recv_msg"],) for c in calls_in(n))
